@@ -565,15 +565,28 @@ impl Enc {
 
 /// Copy a bitvector from `d` to `out` with the three optional support structures made absent.
 pub fn strip_bitvector(d: &mut Dec, out: &mut Enc) -> DResult<()> {
+    strip_bitvector_masked(d, out, 0)
+}
+
+/// Copy a bitvector keeping only the optional support structures selected by `keep` (bit 0 rank, bit 1 select,
+/// bit 2 select_zero) - the format makes each of them independently optional.
+pub fn strip_bitvector_masked(d: &mut Dec, out: &mut Enc, keep: u8) -> DResult<()> {
     let ones = d.elem()?;
     out.elem(ones);
     let len = d.elem()?;
     out.elem(len);
     let words = d.vec_elems()?;
     out.vec_elems(&words);
-    for _ in 0..3 {
-        d.optional()?;
-        out.elem(0);
+    for k in 0..3 {
+        match d.optional()? {
+            Some(body) if keep & (1 << k) != 0 => {
+                out.elem(body.len() as u64);
+                for &x in body {
+                    out.elem(x);
+                }
+            }
+            _ => out.elem(0),
+        }
     }
     Ok(())
 }
@@ -591,11 +604,15 @@ pub fn copy_int(d: &mut Dec, out: &mut Enc) -> DResult<()> {
 }
 
 pub fn strip_sparse(e: &[u64]) -> DResult<Vec<u64>> {
+    strip_sparse_masked(e, 0)
+}
+
+pub fn strip_sparse_masked(e: &[u64], keep: u8) -> DResult<Vec<u64>> {
     let mut d = Dec::new(e);
     let mut out = Enc::new();
     let n = d.elem()?;
     out.elem(n);
-    strip_bitvector(&mut d, &mut out)?;
+    strip_bitvector_masked(&mut d, &mut out, keep)?;
     copy_int(&mut d, &mut out)?;
     if !d.done() {
         return Err("trailing elements after a sparse vector".into());
@@ -604,18 +621,28 @@ pub fn strip_sparse(e: &[u64]) -> DResult<Vec<u64>> {
 }
 
 pub fn strip_core_into(d: &mut Dec, out: &mut Enc) -> DResult<()> {
+    strip_core_into_masked(d, out, &[])
+}
+
+/// `keep[level % keep.len()]` selects the support structures that level keeps (none when `keep` is empty).
+pub fn strip_core_into_masked(d: &mut Dec, out: &mut Enc, keep: &[u8]) -> DResult<()> {
     let width = d.elem()?;
     out.elem(width);
-    for _ in 0..width.min(64) {
-        strip_bitvector(d, out)?;
+    for level in 0..width.min(64) as usize {
+        let k = if keep.is_empty() { 0 } else { keep[level % keep.len()] };
+        strip_bitvector_masked(d, out, k)?;
     }
     Ok(())
 }
 
 pub fn strip_core(e: &[u64]) -> DResult<Vec<u64>> {
+    strip_core_masked(e, &[])
+}
+
+pub fn strip_core_masked(e: &[u64], keep: &[u8]) -> DResult<Vec<u64>> {
     let mut d = Dec::new(e);
     let mut out = Enc::new();
-    strip_core_into(&mut d, &mut out)?;
+    strip_core_into_masked(&mut d, &mut out, keep)?;
     if !d.done() {
         return Err("trailing elements after a wavelet matrix core".into());
     }
@@ -623,11 +650,15 @@ pub fn strip_core(e: &[u64]) -> DResult<Vec<u64>> {
 }
 
 pub fn strip_wm(e: &[u64]) -> DResult<Vec<u64>> {
+    strip_wm_masked(e, &[])
+}
+
+pub fn strip_wm_masked(e: &[u64], keep: &[u8]) -> DResult<Vec<u64>> {
     let mut d = Dec::new(e);
     let mut out = Enc::new();
     let len = d.elem()?;
     out.elem(len);
-    strip_core_into(&mut d, &mut out)?;
+    strip_core_into_masked(&mut d, &mut out, keep)?;
     copy_int(&mut d, &mut out)?;
     if !d.done() {
         return Err("trailing elements after a wavelet matrix".into());
